@@ -213,3 +213,10 @@ def run(ctx):
         probe.report(ctx)
         reach.report(ctx)
     ctx.require("hook:Rule.trigger", "hook:Consequent.modify", "hook:Activated.degree.setter", "compare:appended terms", "law:permutation", "piece:disabled rule", "piece:conclusion on a disabled variable", "piece:hedged conclusion", "piece:hedge on an earlier conclusion of several", "degree:batch", "degree:nan", "degree:inf", "degree:zero", "degree:partial")
+
+
+def passive(ctx, fl, probe):
+    """attach this property's always-on monitor to a foreign workload (the repository's test-suite, see vf/pytest_plugin.py)"""
+    mon = ConsequentMonitor(ctx, fl)
+    mon.install(probe)
+    return None
